@@ -44,6 +44,23 @@ theorem generated_tables_agree :
     Generated.C10.scoreCodes = [0, 1, 2, 3, 4] ∧ Generated.C10.ttypeCodes = [0, 1, 2, 3] := by
   refine ⟨by decide, by decide, by decide, by decide, by decide, by decide, by decide, by decide, by decide⟩
 
+/-- **locate_and_builtin_tables_agree** (tie of two hand-written dispatches to the regenerated switches): for every DOM
+node type the model's `locate` returns the list `Stylesheet::locateMatchPatternDataList` returns (the named list, else the
+wildcard list, for elements and attributes; nothing for a namespace declaration; the `node()` list for any other
+type), and the model's built-in dispatch is the one of `findTemplateToTransformChild` (children for element, document,
+fragment; string value for text, CDATA, attribute; nothing for the rest and for namespace declarations). -/
+theorem locate_and_builtin_tables_agree :
+    (∀ r ∈ Generated.C10.locateRows, locateCodes (NodeKind.ofDomType r.1) = expectedLocateCodes r.2) ∧
+    (∀ ty ∈ [5, 6, 10, 12, 13], ty ∉ Generated.C10.locateRows.map (·.1) ∧
+      locateCodes (NodeKind.ofDomType ty) = ([Generated.C10.locateDefault], [Generated.C10.locateDefault])) ∧
+    Generated.C10.locateRows.map (·.1) = [1, 2, 3, 4, 7, 8, 9, 11] ∧
+    locateCodes .nsDecl = ([], []) ∧
+    (∀ r ∈ Generated.C10.builtinRows, builtinClass (NodeKind.ofDomType r.1) = r.2) ∧
+    (∀ ty ∈ [5, 6, 7, 8, 10, 12, 13], ty ∉ Generated.C10.builtinRows.map (·.1) ∧
+      builtinClass (NodeKind.ofDomType ty) = 0) ∧
+    Generated.C10.builtinRows.map (·.1) = [1, 2, 3, 4, 9, 11] ∧ builtinClass .nsDecl = 0 := by
+  refine ⟨by decide, by decide, by decide, by decide, by decide, by decide, by decide, by decide⟩
+
 /-! ## the pattern tables -/
 
 /-- `addToList` keeps a list sorted by (priority-or-default ↓, position ↓). -/
@@ -491,12 +508,12 @@ example :
 node type (§5.8, `findTemplateToTransformChild`): element/root — process the children in the same mode; text/attribute —
 copy the string value; comment, processing instruction, namespace declaration — nothing. -/
 theorem builtin_rule_when_none (doc : Array NodeRec) (findTop : Nat → Nat → Option Tmpl)
-    (findImp : Tmpl → Nat → Nat → Option Tmpl) (named : Nat → Option Tmpl) (ck : Bool) (f n mode : Nat)
-    (h : findTop n mode = none) :
-    processWith doc findTop findImp named ck (f + 1) n mode none =
+    (findImp : Tmpl → Nat → Nat → Option Tmpl) (named : Nat → Option Tmpl) (ck dk wc : Bool) (f n mode : Nat)
+    (param : List Tok) (h : findTop n mode = none) :
+    processWith doc findTop findImp named ck dk wc (f + 1) n mode none param =
       match (doc.getD n default).kind with
       | .element | .root =>
-        (doc.getD n default).kids.flatMap fun c => processWith doc findTop findImp named ck f c mode none
+        (doc.getD n default).kids.flatMap fun c => processWith doc findTop findImp named ck dk wc f c mode none []
       | .text | .attribute => [.text (doc.getD n default).text]
       | _ => [] := by
   simp only [processWith, h]
@@ -505,12 +522,12 @@ theorem builtin_rule_when_none (doc : Array NodeRec) (findTop : Nat → Nat → 
 /-- **builtin_rule_after_apply_imports.** `xsl:apply-imports` that finds no imported rule falls back to the same
 built-in rule of the node type, in the same mode (the children are then processed with the whole stylesheet again). -/
 theorem builtin_rule_after_apply_imports (doc : Array NodeRec) (findTop : Nat → Nat → Option Tmpl)
-    (findImp : Tmpl → Nat → Nat → Option Tmpl) (named : Nat → Option Tmpl) (ck : Bool) (f n mode : Nat) (cur : Tmpl)
+    (findImp : Tmpl → Nat → Nat → Option Tmpl) (named : Nat → Option Tmpl) (ck dk wc : Bool) (f n mode : Nat) (cur : Tmpl)
     (h : findImp cur n mode = none) :
-    processWith doc findTop findImp named ck (f + 1) n mode (some cur) =
+    processWith doc findTop findImp named ck dk wc (f + 1) n mode (some cur) [] =
       match (doc.getD n default).kind with
       | .element | .root =>
-        (doc.getD n default).kids.flatMap fun c => processWith doc findTop findImp named ck f c mode none
+        (doc.getD n default).kids.flatMap fun c => processWith doc findTop findImp named ck dk wc f c mode none []
       | .text | .attribute => [.text (doc.getD n default).text]
       | _ => [] := by
   simp only [processWith, h]
@@ -522,12 +539,42 @@ describes for **`t`'s** module when `callKeeps = true` (specification; implement
 proposed/C10-call-template-current-rule.diff), and for `nt`'s module when `callKeeps = false` (unchanged
 `ElemTemplate::startElement`, known finding C10-call-template-current-rule). -/
 theorem applyImports_call_template_scope (doc : Array NodeRec) (findTop : Nat → Nat → Option Tmpl)
-    (findImp : Tmpl → Nat → Nat → Option Tmpl) (named : Nat → Option Tmpl) (ck : Bool) (f n mode : Nat)
+    (findImp : Tmpl → Nat → Nat → Option Tmpl) (named : Nat → Option Tmpl) (ck dk wc : Bool) (f n mode : Nat)
     (t nt : Tmpl) (hfound : findTop n mode = some t) (hcall : t.call ≠ 0) (hnamed : named t.call = some nt)
-    (hai : nt.applyImports = true) (hnoai : t.applyImports = false) :
-    processWith doc findTop findImp named ck (f + 1) n mode none =
+    (hai : nt.applyImports = true) (hnoai : t.applyImports = false) (hnowp : t.wpMode = 0)
+    (hnb : t.bare = false) :
+    processWith doc findTop findImp named ck dk wc (f + 1) n mode none [] =
       .rule t.id :: .rule nt.id ::
-        processWith doc findTop findImp named ck f n mode (some (if ck then t else nt)) := by
-  simp [processWith, hfound, hcall, hnamed, hai, hnoai]
+        processWith doc findTop findImp named ck dk wc f n mode (some (if ck then t else nt)) [] := by
+  simp [processWith, hfound, hcall, hnamed, hai, hnoai, hnowp, hnb]
+
+/-- **direct_call_template_scope.** A rule whose body is only `<xsl:call-template name="n"/>` runs the named template
+directly (Xalan's `eHasDirectTemplate` short cut, the rule itself being the invoker); the current template rule must
+still be the rule (§5.6): `apply-imports` in `n` searches from the rule's module iff `dk` (`true` in the specification;
+implementation with proposed/C10-direct-call-template-current-rule.diff). -/
+theorem direct_call_template_scope (doc : Array NodeRec) (findTop : Nat → Nat → Option Tmpl)
+    (findImp : Tmpl → Nat → Nat → Option Tmpl) (named : Nat → Option Tmpl) (ck dk wc : Bool) (f n mode : Nat)
+    (t nt : Tmpl) (hfound : findTop n mode = some t) (hb : t.bare = true) (hnamed : named t.call = some nt)
+    (hai : nt.applyImports = true) (param : List Tok) :
+    processWith doc findTop findImp named ck dk wc (f + 1) n mode none param =
+      .rule nt.id :: processWith doc findTop findImp named ck dk wc f n mode (some (if dk then t else nt)) [] := by
+  simp [processWith, hfound, hb, hnamed, hai]
+
+/-- **with_param_caller_context.** The value of an `xsl:with-param` is computed in the context of the *caller*
+(§11.6): when rule `t`, running in mode `mode`, does `<xsl:apply-templates select="." mode="t.wpMode">` with a
+parameter whose body is `xsl:apply-imports`, that apply-imports is the search `applyImports_scope`/`applyImports_spec`
+describe for `t`'s module **in mode `mode`** when `wc = true` (specification; implementation with
+proposed/C10-with-param-caller-mode.diff) — and in the callee's mode `t.wpMode` when `wc = false`
+(`ElemApplyTemplates::startElement` of the unchanged code, known finding C10-with-param-callee-mode); the result is
+handed to the rule chosen for the node in mode `t.wpMode`, which prints it after its marker. -/
+theorem with_param_caller_context (doc : Array NodeRec) (findTop : Nat → Nat → Option Tmpl)
+    (findImp : Tmpl → Nat → Nat → Option Tmpl) (named : Nat → Option Tmpl) (ck dk wc : Bool) (f n mode : Nat)
+    (t : Tmpl) (hfound : findTop n mode = some t) (hcall : t.call = 0) (hwp : t.wpMode ≠ 0) (hbody : t.wpCall = 0)
+    (hnoai : t.applyImports = false) (hnb : t.bare = false) :
+    processWith doc findTop findImp named ck dk wc (f + 1) n mode none [] =
+      .rule t.id ::
+        processWith doc findTop findImp named ck dk wc f n t.wpMode none
+          (processWith doc findTop findImp named ck dk wc f n (if wc then mode else t.wpMode) (some t) []) := by
+  simp [processWith, hfound, hcall, hwp, hbody, hnoai, hnb]
 
 end XalanModel.Props.C10
